@@ -15,6 +15,7 @@ from harness.c15 import tok_text
 
 PID = "C08"
 NUMSPLIT = re.compile(r"^(\d*\.?\d*)(E)([+-]?)(\d*)$")
+CLEARCMT = re.compile(r"\(\* CLEAR[^*\n]*\*\)")
 MULTI = [
     ["10 A=1:PRINT A", "20 IF A=1 THEN 10", "30 END"],
     ["10 FOR I=1 TO 3", "20 PRINT I;\" X \"", "30 NEXT I"],
@@ -23,10 +24,20 @@ MULTI = [
 ]
 
 
+# literal x following keyword: Color BASIC needs no blank between a number and a keyword (2.5ELSE, 1TO 2STEP 1, THEN20)
+ADJ_LITS = ["2", "2.5", "2.", ".5", "1E2", "1.5E1"]
+ADJACENT = [["10 IF A=1 THEN B=%s ELSE C=3" % l for l in ADJ_LITS[:1]] + ["20 END"]] + [
+    p for l in ADJ_LITS for p in (
+        ["10 IF A=1 THEN B=%s ELSE C=%s" % (l, l)], ["10 IF A=%s THEN 10 ELSE 10" % l], ["10 IF A=%s OR B=%s AND C THEN B=1" % (l, l)],
+        ["10 FOR I=%s TO %s STEP %s:NEXT" % (l, l, l)], ["10 ON %s GOTO 10,10" % l], ["10 ON %s GOSUB 10" % l], ["10 IF A THEN B=%s:GOTO 10" % l],
+        ["10 IF A THEN PRINT %s ELSE PRINT %s;" % (l, l)], ["10 IF A=1 THEN IF B=%s THEN C=%s ELSE D=%s ELSE E=%s" % (l, l, l, l)])]
+
+
 def layout_tokens(line):
-    """-> [(text, kind)] with kind: 't' ordinary, 'lit' inside-literal continuation (boundary before it may be 0), 'fix' (boundary before it fixed at 0)"""
+    """-> [(text, kind)] with kind: 't' ordinary, 'lit' inside-literal continuation (boundary before it may be 0), 'fix' (boundary before it fixed at 0),
+    'n' number or last part of one, 'k' keyword (no blank is needed between a number and a keyword)"""
     m = decblex.LINE.match(line)
-    out = [(m.group(1), "t")]
+    out = [(m.group(1), "n")]
     toks = decblex.lex_body(m.group(2))
     prev = None
     for t in toks:
@@ -34,15 +45,17 @@ def layout_tokens(line):
         if t["k"] == "num" and NUMSPLIT.match(text) and "E" in text:
             g = NUMSPLIT.match(text).groups()
             parts = [p for p in g if p != ""]
-            out.append((parts[0], "t"))
+            out.append((parts[0], "n"))
             out.extend((p, "lit") for p in parts[1:])
+            if parts[-1][-1:].isdigit():
+                out[-1] = (parts[-1], "litn")
         elif t["k"] == "hex":
             digits = text.replace(" ", "")[2:]
             out.extend([("&", "t"), ("H", "lit"), (digits, "lit")])
         elif t["k"] == "raw":
             out.append((text, "fix"))
         else:
-            kind = "t"
+            kind = "n" if t["k"] == "num" else "k" if t["k"] == "kw" and text[-1:].isalpha() else "t"
             if prev is not None and prev["k"] == "raw":
                 kind = "fix"             # blanks after an unquoted DATA item are part of the item
             out.append((text, kind))
@@ -50,10 +63,12 @@ def layout_tokens(line):
     return out
 
 
-def minblanks(a, b, kind):
+def minblanks(a, b, kind, akind="t"):
     if kind == "fix":
         return -1
-    if kind == "lit":
+    if kind in ("lit", "litn"):
+        return 0
+    if (akind in ("n", "litn") and kind == "k") or (akind == "k" and kind == "n"):
         return 0
     return 1 if (a[-1:].isalnum() or a[-1:] == "$") and b[:1].isalnum() else 0
 
@@ -66,7 +81,7 @@ def render(lines_tokens, base, dev, style):
         for k, (text, kind) in enumerate(toks):
             if k > 0:
                 pos += 1
-                mn = minblanks(toks[k - 1][0], text, kind)
+                mn = minblanks(toks[k - 1][0], text, kind, toks[k - 1][1])
                 if mn < 0:
                     n = 0
                 else:
@@ -133,6 +148,7 @@ def main():
         pre = {(): [], (0,): ["FOR I=1 TO 2"], (1,): ["FOR I=1 TO 2"], (2,): ["FOR J=1 TO 2"], (2, 1): ["FOR I=1 TO 2", "FOR J=1 TO 2"]}[tuple(p.get("close", []))]
         post = ["NEXT"] * len(p.get("open", []))
         programs.append(["10 " + ":".join(pre + [body])] + (["20 " + ":".join(post)] if post else []) + corpus.TAIL[:1] + ["910 RETURN", "920 RETURN"])
+    programs += ADJACENT
     programs += MULTI
     plan, owner = [], []
     for pi, prog in enumerate(programs):
@@ -181,7 +197,9 @@ def main():
             srcstr = [s for s in srcstr if not re.fullmatch(rb"[ 0-9.+\-EH&A-F]*", bytes(s))]
         cases.append({"id": len(cases) + 1, "srcstr": srcstr, "outstr": outstr,
                       "runs": [{"outcome": "ok" if "out" in rr else rr.get("outcome", "other:?"),
-                                "hash": hashlib.sha1(rr["out"].encode("latin-1", "replace")).hexdigest() if "out" in rr else "", "what": w} for w, s, rr in runs]})
+                                "hash": hashlib.sha1(rr["out"].encode("latin-1", "replace")).hexdigest() if "out" in rr else "",
+                                "hashc": hashlib.sha1(CLEARCMT.sub(lambda m: m.group(0).replace(" ", ""), rr["out"]).encode("latin-1", "replace")).hexdigest() if "out" in rr else "",
+                                "what": w} for w, s, rr in runs]})
         meta[len(cases)] = (prog, runs)
     vds = common.judge("Trace_C08", cases, rep, wd, shard=400)
     for c, v in zip(cases, vds):
@@ -198,8 +216,8 @@ def main():
                     {"program": prog, "layout": runs[k][1], "result": runs[k][2]})
     rep.count("abstract_programs", len(cases))
     # gating canaries: a case whose layouts disagree must be rejected
-    can = [dict(cases[0], runs=cases[0]["runs"][:3] + [dict(cases[0]["runs"][0], hash="0" * 40)]),
-           dict(cases[0], runs=cases[0]["runs"][:3] + [dict(cases[0]["runs"][0], outcome="grammar", hash="")]),
+    can = [dict(cases[0], runs=cases[0]["runs"][:3] + [dict(cases[0]["runs"][0], hash="0" * 40, hashc="1" * 40)]),
+           dict(cases[0], runs=cases[0]["runs"][:3] + [dict(cases[0]["runs"][0], outcome="grammar", hash="", hashc="")]),
            dict(cases[-1], srcstr=cases[-1]["srcstr"] + [[1, 2, 3]])]
     cv = common.judge("Trace_C08", can, rep, wd)
     if any(v["ok"] for v in cv):
